@@ -23,16 +23,53 @@ pub enum Event {
 
 thread_local! {
     static EVENTS: RefCell<Vec<Event>> = const { RefCell::new(Vec::new()) };
+    static OBSERVER: RefCell<Option<Box<dyn FnMut(&Event)>>> = const { RefCell::new(None) };
 }
+
+/// The sink keeps at most this many undrained events per thread (later ones are dropped) so
+/// that a runaway loop cannot exhaust memory through the hook itself.
+const SINK_CAP: usize = 1 << 20;
 
 static SCHED_REACHED: AtomicU64 = AtomicU64::new(0);
 
 type SchedFn = Arc<dyn Fn(&'static str) + Send + Sync>;
 static SCHED_CB: RwLock<Option<SchedFn>> = RwLock::new(None);
 
-/// Append an event to the calling thread's sink.
+/// Append an event to the calling thread's sink and show it to the thread's observer, if any.
+/// The observer may unwind (a monitor enforcing a logical step bound does).
 pub fn emit(ev: Event) {
-    EVENTS.with(|e| e.borrow_mut().push(ev));
+    let taken = OBSERVER.with(|o| o.borrow_mut().take());
+    if let Some(obs) = taken {
+        // put the observer back even if it unwinds
+        struct PutBack(Option<Box<dyn FnMut(&Event)>>);
+        impl Drop for PutBack {
+            fn drop(&mut self) {
+                let b = self.0.take();
+                OBSERVER.with(|o| {
+                    let mut slot = o.borrow_mut();
+                    if slot.is_none() {
+                        *slot = b;
+                    }
+                });
+            }
+        }
+        let mut guard = PutBack(Some(obs));
+        if let Some(f) = guard.0.as_mut() {
+            f(&ev);
+        }
+    }
+    EVENTS.with(|e| {
+        let mut v = e.borrow_mut();
+        if v.len() < SINK_CAP {
+            v.push(ev);
+        }
+    });
+}
+
+/// Install (or remove) an observer called synchronously on the emitting thread for every
+/// event emitted on this thread.
+pub fn set_event_observer(obs: Option<Box<dyn FnMut(&Event)>>) {
+    OBSERVER.with(|o| *o.borrow_mut() = obs);
 }
 
 /// Drain the calling thread's sink.
